@@ -128,6 +128,10 @@ Definition float_obs_eqb (a b : float) : bool :=
 (* ------------------------------------------------------------------------------------------- *)
 (* Real-number instance (proofs only; not computable)                                           *)
 
+(* powf over the reals: x^y = exp (y ln x) for x > 0; the one exponent the code uses with possibly
+   non-positive bases is 2.0 (squared deviations), where powf(x, 2) = x * x for every x *)
+Definition Rpowf (x y : R) : R := if Req_EM_T y 2 then (x * x)%R else Rpower x y.
+
 Definition RNum : Num R := {|
   fzero := 0%R;
   fone := 1%R;
@@ -147,5 +151,5 @@ Definition RNum : Num R := {|
   ftenth := (1 / 10)%R;
   fln := ln;
   fexp := exp;
-  fpow := Rpower;
+  fpow := Rpowf;
 |}.
